@@ -315,14 +315,25 @@ class Engine(EngineBase, Generic[VarType]):
                 names_out, args_out, self, net, parameters, other_parameters, compact
             )
 
-        # create dynamics function
+        # create dynamics function (CasADi's common subexpression elimination treats
+        # distinct symbols with the same name as one, so it is enabled only if the
+        # names of all input symbols are unique, e.g., no two elements share a name)
+        sym_names = [
+            sym.name()
+            for vars in chain(x.values(), u.values(), d.values(), [parameters])
+            for var in vars.values()
+            for sym in cs.symvar(var)
+        ]
         return cs.Function(
             "F",
             args_in,
             args_out,
             names_in,
             names_out,
-            {"allow_duplicate_io_names": True, "cse": True},
+            {
+                "allow_duplicate_io_names": True,
+                "cse": len(set(sym_names)) == len(sym_names),
+            },
         )
 
     def __str__(self) -> str:
